@@ -20,16 +20,20 @@ def _ref_allowed(fc, fp, ws, we, n, last, t):
     return True
 
 
+def _effects(w):
+    return len(w.push.snapshots) + len([e for e in getattr(w, "log", []) if e[0] in ("log", "counter", "open")])
+
+
 def _drive(w, action_trigger, times):
-    """Deliver one matching line event per instant; return the list of hit indexes that produced a snapshot."""
+    """Deliver one matching line event per instant; return the list of hit indexes on which the action was performed."""
     w.install([action_trigger])
     fired = []
     for i, t in enumerate(times):
         w.clock.t = t
-        before = len(w.push.snapshots)
+        before = _effects(w)
         frame = FakeFrame("/app/f.py", "fn", 7, {"x": 1})
         w.event(frame, "line", None)
-        got = len(w.push.snapshots) - before
+        got = _effects(w) - before
         if got > 1:
             return None
         if got == 1:
@@ -81,6 +85,41 @@ def _ref_text_int(s, default):
         return int(s)
     except ValueError:
         return default
+
+
+def seq_kinds(ak: int, fc: int, fp: int, t1: int, d2: int, d3: int) -> str:
+    """
+    The same limits hold for every action kind: log line (1), metric (2), span (3) - with the providers installed.
+    PRE: 1 <= ak <= 3 and t1 > 0 and d2 >= 0 and d3 >= 0
+    POST: _ == ""
+    """
+    world.begin_path()
+    from deep.api.tracepoint.trigger import build_trigger
+    from deep.api.tracepoint.tracepoint_config import MetricDefinition
+    from vlib.world import plugins
+    ak = world.realize(ak)
+    P = plugins()
+    log = []
+    w = World(plugin_list=[P["RecLogger"](log), P["RecMetricProcessor"](log), P["RecSpanProcessor"](log)])
+    w.log = log
+    args = {"fire_count": fc, "fire_period": fp, "snapshot": "no_collect"}
+    metrics = []
+    if ak == 1:
+        args["log_msg"] = "m"
+    elif ak == 2:
+        metrics = [MetricDefinition("m", "COUNTER")]
+    else:
+        args["span"] = "line"
+    trig = build_trigger("tp1", "f.py", 7, args, [], metrics)
+    times = [t1, t1 + d2, t1 + d2 + d3]
+    fired = _drive(w, trig, times)
+    world.reached()
+    want, _, _ = _ref(fc, fp, 0, 0, times)
+    if fired != want:
+        if fired is None or len(fired) > len(want):
+            return "C04:kinds:limit-exceeded"
+        return "C04:kinds:permitted-hit-lost"
+    return ""
 
 
 def seq_text(ci: int, pi: int, t1: int, d2: int, d3: int) -> str:
@@ -286,6 +325,8 @@ CONDITIONS = [
     dict(fn="seq_built", cubes={"quick": ["k == 1", "k == 2", "k == 3"], "thorough": ["k == 1", "k == 2", "k == 3", "k == 4"]},
          twins=["reach", "mutant:fire_not_counted@k == 2", "mutant:period_le@k == 2"],
          bounds="k<=3 hits (4 thorough) at unbounded non-decreasing instants > 0; fire_count, fire_period unbounded ints"),
+    dict(fn="seq_kinds", cubes=["ak == %d" % a for a in (1, 2, 3)], twins=["reach"],
+         bounds="log / metric / span actions with their providers installed; 3 hits; fire_count, fire_period and instants unbounded symbolic"),
     dict(fn="seq_text", cubes={"quick": ["ci == %d" % i for i in range(10)], "thorough": ["ci == %d" % i for i in range(10)]},
          twins=["reach"], bounds="fire_count/fire_period text from a pool of 10 (valid, blank, unparsable); 3 hits"),
     dict(fn="seq_defaults", cubes={"quick": [""], "thorough": [""]}, twins=["reach"], bounds="3 hits, 3 argument sets"),
